@@ -173,6 +173,25 @@ def _is_op_with_lambda(node: ast.AST, name: str) -> bool:
     )
 
 
+# The name ObjectStream gives the function parameter of each operator
+_operator_function_keyword = {"Select": "f", "SelectMany": "func", "Where": "filter"}
+
+
+def _operator_source_and_function(node: ast.Call) -> Optional[List[ast.expr]]:
+    """`[source, function]` of an operator call - the function may be given by keyword
+    (`Where(seq, filter=lambda ...)`). `None` if the call is not of that shape."""
+    name = node.func.id  # type: ignore
+    if len(node.args) == 2 and len(node.keywords) == 0:
+        return list(node.args)
+    if (
+        len(node.args) == 1
+        and len(node.keywords) == 1
+        and node.keywords[0].arg == _operator_function_keyword[name]
+    ):
+        return [node.args[0], node.keywords[0].value]
+    return None
+
+
 def convolute(ast_g: ast.Lambda, ast_f: ast.Lambda):
     "Return an AST that represents g(f(args))"
     # Combine the lambdas into a single call by calling g with f as an argument
@@ -307,6 +326,10 @@ class simplify_chained_calls(FuncADLNodeTransformer):
         => Select(Where(seq, x: f(x), y: g(y))
         is not altered.
         """
+        args = _operator_source_and_function(node)  # type: ignore
+        if args is None:
+            # Not `op(seq, function)`: an ordinary call, its parts are still simplified
+            return self.generic_visit(node)
         source = args[0]
         transform = args[1]
 
@@ -386,6 +409,10 @@ class simplify_chained_calls(FuncADLNodeTransformer):
         Transformation #3:
         seq.Where(x: f(x)).SelectMany(y: g(y))
         """
+        args = _operator_source_and_function(node)  # type: ignore
+        if args is None:
+            # Not `op(seq, function)`: an ordinary call, its parts are still simplified
+            return self.generic_visit(node)
         selection = args[1]
         parent_select = self.visit(args[0])
         if not isinstance(selection, ast.Lambda):
@@ -488,6 +515,10 @@ class simplify_chained_calls(FuncADLNodeTransformer):
         seq.SelectMany(x: f(x).Where(y: g(y)))
         => SelectMany(seq, x: Where(f(x), g(y)))
         """
+        args = _operator_source_and_function(node)  # type: ignore
+        if args is None:
+            # Not `op(seq, function)`: an ordinary call, its parts are still simplified
+            return self.generic_visit(node)
         source = args[0]
         filter = args[1]
 
